@@ -4,7 +4,7 @@
    gen_table_ok in the generated file), so that they apply to every generated type. *)
 From DV Require Import Base.Prelude Model.NameM Model.SchemaM Proofs.SchemaCodec Proofs.SchemaThm Proofs.SchemaFix Proofs.SchemaTable Proofs.SchemaOrigin.
 From DV Require Proofs.NameValid.
-From DV Require Import Model.DispatchM Proofs.SchemaDispatch Model.SchemaHand Proofs.SchemaHandThm Proofs.SchemaTotal.
+From DV Require Import Model.DispatchM Proofs.SchemaDispatch Model.SchemaHand Proofs.SchemaHandThm Proofs.SchemaTotal Proofs.SchemaReenc.
 Open Scope Z_scope.
 
 (* from_wire(to_wire(x)) = x for every well-formed schema and every value the constructor
@@ -62,6 +62,15 @@ Theorem schema_fixed_point : forall fs ck wire cur rdlen vs,
                           encode_rdata None fs ck vs' = Ok w').
 Proof. exact schema_fixed_point_none. Qed.
 Print Assumptions schema_fixed_point.
+
+(* for field lists without normalising fields (no names: compression pointers are expanded; no
+   optional tail) decode-then-encode is the identity on ARBITRARY accepted RDATA octets *)
+Theorem schema_reencode : forall fs ck wire cur rdlen vs,
+  schema_wf fs = true -> forallb no_norm fs = true -> all_bytes wire = true ->
+  decode_rdata None fs ck wire cur rdlen = Ok vs ->
+  encode_rdata None fs ck vs = Ok (slice wire cur (cur + rdlen)).
+Proof. exact schema_reencode_thm. Qed.
+Print Assumptions schema_reencode.
 
 (* the same two statements between a type's WRITER field list and its READER field list, for
    every entry of any table that passes entry_ok (the generated file instantiates them on the
@@ -309,3 +318,6 @@ Example opt_normalises :
   hand_decode_rdata HOpt None [0; 8; 0; 7; 0; 1; 20; 0; 192; 0; 47;  0; 15; 0; 4; 0; 18; 120; 0] 0 19
   = Ok [VL [[VI 8; VB [0; 1; 20; 0; 192; 0; 32]]; [VI 15; VB [0; 18; 120]]]].
 Proof. vm_compute. reflexivity. Qed.
+
+(* schema_reencode is not vacuous: NSEC3 has no names and no optional tail *)
+Example nsec3_no_norm : forallb no_norm nsec3_schema = true. Proof. reflexivity. Qed.
